@@ -591,7 +591,8 @@ class Gen:
             ty = r.choice(["int", "str", "list"])
             c = [v for v, t in env.items() if t == ty and v in scope]
             if c:
-                return [pad + "%s += %s" % (r.choice(c), self.expr(env, ty, 1))]
+                # the right-hand side never mentions a variable: no self-doubling inside loops
+                return [pad + "%s += %s" % (r.choice(c), self.expr({}, ty, 2))]
             return [pad + "trace(%s)" % self.expr(env, ty)]
         if k == 5:
             v = self.pick(env, "list")
@@ -830,8 +831,7 @@ def signature(p, why):
     if kind == "det":
         sets = re.findall(r"\{([^}]*)\}", why)
         comps = "+".join(sorted(x.strip().strip('"') for x in sets[0].split(","))) if sets else "?"
-        kinds = "+".join(sorted(x.strip().strip('"') for x in sets[1].split(","))) if len(sets) > 1 else "?"
-        return "det:%s/%s/%s" % (p["fam"], comps, kinds)
+        return "det:%s/%s" % (p["fam"], comps)     # which kinds of run deviate is in the message (it varies between executions)
     if kind == "ord":
         ns = [int(x) for x in re.findall(r"\d+", why)]
         op = p["ops"][min(ns) - 1][0] if ns and min(ns) <= len(p.get("ops", [])) else "?"
@@ -865,7 +865,7 @@ def run(ctx):
     hdig = hashlib.sha1(json.dumps(header).encode()).hexdigest()
     ctx.log("generated %d programs (%s)" % (len(progs), ", ".join("%s=%d" % (f, sum(1 for p in progs if p["fam"] == f)) for f in ("ord", "feat", "gen"))))
     chunk = 16 if ctx.quick else 50     # programs per child process (process creation is the dominant cost)
-    recs, summary, fps, nruns = [], {}, set(), 0
+    recs, summary, fps, nruns, timeouts = [], {}, set(), 0, []
     per_batch = 400
     for bi in range(0, len(progs), per_batch):
         batch = progs[bi:bi + per_batch]
@@ -874,6 +874,10 @@ def run(ctx):
             raise vlib.MachineryError("harness returned runs for %d of %d programs" % (len(groups), len(batch)))
         for p in batch:
             g = groups[p["id"]]
+            if any(r["obs"].get("timeout") for r in g):
+                # the wall-clock watchdog stopped a run (cost of single steps, not of their number): not judged
+                timeouts.append(p["id"])
+                continue
             nruns += len(g)
             fps.update(r["fp"] for r in g)
             recs.append(make_record(p, g, hdig))
@@ -884,6 +888,11 @@ def run(ctx):
         if not ctx.quick:
             ctx.log("batch %d: %d programs executed" % (bi // per_batch + 1, len(batch)))
     ctx.log("recorded %d runs in %d processes with distinct hash seeds" % (nruns, len(fps)))
+    if timeouts:
+        ctx.notes.append("programs dropped because a run hit the wall-clock watchdog: %s" % timeouts[:20])
+        if len(timeouts) > max(3, len(progs) // 50):
+            raise vlib.MachineryError("%d programs hit the wall-clock watchdog" % len(timeouts))
+        progs = [p for p in progs if p["id"] not in set(timeouts)]
     byid = {p["id"]: p for p in progs}
     pf = pool_file(ctx, pool, header)
     bad = validate(ctx, recs, pf, "recs")
